@@ -231,6 +231,68 @@ func execBloom(c Case) string {
 			}
 		}
 		return joinOr(ans, ",") + " " + filterBits(f)
+	case "histobj":
+		// a history over message *objects*: the filter holds a pointer to a caller-owned wire.MsgFilterLoad and
+		// inserts into it in place; R:<k> reloads the k-th object of this history again (0 = the initial one),
+		// g asks which object MsgFilterLoad() hands out. Observed: the answers and the bit arrays of all objects.
+		msgs := []*wire.MsgFilterLoad{}
+		var f *bloom.Filter
+		if a[0] == "nil" {
+			f = bloom.LoadFilter(nil)
+		} else {
+			m0 := mkMsg(a)
+			msgs = append(msgs, m0)
+			f = bloom.LoadFilter(m0)
+		}
+		ans := []string{}
+		for _, op := range splitOr(a[4], ";") {
+			t := strings.Split(op, ":")
+			switch t[0] {
+			case "a":
+				f.Add(unhx(t[1]))
+				ans = append(ans, ".")
+			case "o":
+				f.AddOutPoint(wire.NewOutPoint(mkHash(unhx(t[1])), uint32(atou(t[2]))))
+				ans = append(ans, ".")
+			case "m":
+				ans = append(ans, b2s(f.Matches(unhx(t[1]))))
+			case "r":
+				m := mkMsg(t[1:5])
+				msgs = append(msgs, m)
+				f.Reload(m)
+				ans = append(ans, ".")
+			case "R":
+				k := atoi(t[1])
+				if k < len(msgs) {
+					f.Reload(msgs[k])
+				}
+				ans = append(ans, ".")
+			case "u":
+				f.Unload()
+				ans = append(ans, ".")
+			case "l":
+				ans = append(ans, b2s(f.IsLoaded()))
+			case "g":
+				got := f.MsgFilterLoad()
+				id := "?"
+				if got == nil {
+					id = "n"
+				}
+				for k, m := range msgs {
+					if m == got {
+						id = itoa(k)
+					}
+				}
+				ans = append(ans, id)
+			default:
+				panic("harness: histobj op")
+			}
+		}
+		objs := []string{}
+		for _, m := range msgs {
+			objs = append(objs, hx(m.Filter)+"/"+u64s(uint64(m.HashFuncs))+"/"+u64s(uint64(m.Tweak))+"/"+itoa(int(m.Flags)))
+		}
+		return joinOr(ans, ",") + " " + joinOr(objs, "|")
 	case "newfilter":
 		f := bloom.NewFilter(uint32(atou(a[0])), uint32(atou(a[1])), math.Float64frombits(atou(a[2])), wire.BloomUpdateType(atoi(a[3])))
 		m := f.MsgFilterLoad()
@@ -256,7 +318,13 @@ func execBloom(c Case) string {
 			}
 		}
 		f1 := mkFilter(a)
-		r1 := idxList(bloom.GetMatchedIndices(bchutil.NewBlock(blk), f1))
+		// the positions reported are positions in the block, whatever index the transaction wrappers carry (a caller
+		// may have relabelled them: Tx.SetIndex is exported)
+		b1 := bchutil.NewBlock(blk)
+		for i, t := range b1.Transactions() {
+			t.SetIndex([]int{bchutil.TxIndexUnknown, i + 1, 0}[i%3])
+		}
+		r1 := idxList(bloom.GetMatchedIndices(b1, f1))
 		res := []string{r1, filterBits(f1)}
 		if len(blk.Transactions) > 0 {
 			f2 := mkFilter(a)
@@ -285,6 +353,19 @@ func execBloom(c Case) string {
 			if a[2][i] == '1' {
 				hh := h
 				set = append(set, &hh)
+			}
+		}
+		// decoys: for every transaction that is NOT chosen the set also holds hashes that differ from its hash in one
+		// byte only (first, last, and a position depending on the index) - they are not in the block and select nothing
+		for i, t := range blk.Transactions {
+			if a[2][i] == '1' {
+				continue
+			}
+			for _, pos := range []int{0, 31, (i * 7) % 32} {
+				d := t.TxHash()
+				d[pos] ^= 1 << uint(i%8)
+				dd := d
+				set = append(set, &dd)
 			}
 		}
 		m, idx := merkleblock.NewMerkleBlockWithTxnSet(bchutil.NewBlock(blk), set)
@@ -355,6 +436,31 @@ func genC09(r *Rng, tier string, emit func(Case)) {
 	if tier == "thorough" {
 		n = 10000
 	}
+	// special outpoints (the null outpoint of a coinbase input: zero hash, index 2^32-1; all-ones hash; index 0) and
+	// special items (empty, 520 and 521 bytes = around MaxFilterAddDataSize, one zero byte) inserted and queried in
+	// filters of the boundary sizes (1, 35999 and 36000 bytes = MaxFilterLoadFilterSize) and hash counts (0, 1, 50)
+	{
+		z, o := strings.Repeat("00", 32), strings.Repeat("ff", 32)
+		ops := []string{}
+		for _, h := range []string{z, o} {
+			for _, ix := range []string{"4294967295", "0", "1"} {
+				ops = append(ops, "p:"+h+":"+ix, "o:"+h+":"+ix, "p:"+h+":"+ix)
+			}
+		}
+		for _, l := range []int{0, 1, 520, 521, 1000} {
+			it := hx(make([]byte, l))
+			if l == 0 {
+				it = "-"
+			}
+			ops = append(ops, "m:"+it, "a:"+it, "m:"+it)
+		}
+		for _, fl := range []int{1, 2, 35999, 36000} {
+			for _, nh := range []int{0, 1, 50} {
+				e("hist", "special", hx(make([]byte, fl)), itoa(nh), "7", "0", strings.Join(ops, ";"))
+			}
+		}
+		e("hist", "special", "-", "3", "7", "0", strings.Join(ops, ";"))
+	}
 	// murmur: every length mod 4, high bytes in tail
 	for l := 0; l <= 9; l++ {
 		for _, seed := range []uint32{0, 1, 0xffffffff, 0xfba4c795} {
@@ -415,6 +521,36 @@ func genC09(r *Rng, tier string, emit func(Case)) {
 			}
 		}
 		e("hist", "len"+itoa(len(unhx(fa[0]))), fa[0], fa[1], fa[2], fa[3], strings.Join(ops, ";"))
+		// histories over message objects: an earlier object is loaded again (it kept what was inserted into it)
+		if i%3 == 0 {
+			fo := genFilterArgs(r, true)
+			if r.Intn(3) == 0 {
+				fo[3] = itoa(r.Pick(3, 4, 128, 255)) // flag bytes beyond the three update modes are carried, not interpreted
+			}
+			nobj := 1
+			oops := []string{}
+			oitems := [][]byte{}
+			for j, no := 0, 4+r.Intn(12); j < no; j++ {
+				switch k := r.Intn(10); {
+				case k < 3:
+					it := genItem(r)
+					oitems = append(oitems, it)
+					oops = append(oops, "a:"+hx(it))
+				case k < 5 && len(oitems) > 0:
+					oops = append(oops, "m:"+hx(oitems[r.Intn(len(oitems))]))
+				case k == 5:
+					oops = append(oops, "r:"+strings.Join(genFilterArgs(r, true), ":"))
+					nobj++
+				case k < 8:
+					oops = append(oops, "R:"+itoa(r.Intn(nobj)))
+				case k == 8:
+					oops = append(oops, "g")
+				default:
+					oops = append(oops, []string{"u", "l", "g"}[r.Intn(3)])
+				}
+			}
+			e("histobj", "objs", fo[0], fo[1], fo[2], fo[3], strings.Join(oops, ";"))
+		}
 		// sizing
 		el := uint32(r.Pick(0, 1, 2, 10, 100, 1000, 100000, 0x7fffffff, 0xffffffff, int(r.U64()&0xfffff)))
 		fps := []float64{-1, 0, 1e-12, 1e-9, 1e-6, 0.0001, 0.01, 0.5, 1, 2, math.NaN(), math.Inf(1), math.Inf(-1), math.Float64frombits(r.U64())}
@@ -719,6 +855,39 @@ func directedBlocks(r *Rng, tier string, e func(op, cls string, args ...string))
 			}
 		}
 	}
+	// directed: a child with TWO parents. It spends an output of each; for each parent the spent output is either the
+	// matching one (its outpoint enters the filter under the flag) or another, non-matching output of a parent that
+	// still matches through its other output; all six orders of (child, parent1, parent2); every flag. The child is
+	// relevant exactly when a spent output's outpoint was inserted - whichever parent comes first or last.
+	for flags := 0; flags < 3; flags++ {
+		for shape := 0; shape < 4; shape++ { // bit 0: child spends parent1's matching output; bit 1: parent2's
+			for _, perm := range [][]int{{0, 1, 2}, {0, 2, 1}, {1, 0, 2}, {1, 2, 0}, {2, 0, 1}, {2, 1, 0}} {
+				key := r.Bytes(33)
+				key[0] = 2
+				mkParent := func() *wire.MsgTx {
+					p := wire.NewMsgTx(1)
+					p.AddTxIn(wire.NewTxIn(&wire.OutPoint{Hash: *mkHash(r.Bytes(32)), Index: 7}, pushOnly(r.Bytes(70))))
+					p.AddTxOut(wire.NewTxOut(0, p2pkh(r.Bytes(20)), wire.TokenData{})) // does not match
+					p.AddTxOut(wire.NewTxOut(1, p2pk(key), wire.TokenData{}))          // matches, updatable under both flags
+					return p
+				}
+				p1, p2 := mkParent(), mkParent()
+				child := wire.NewMsgTx(1)
+				child.AddTxIn(wire.NewTxIn(&wire.OutPoint{Hash: p1.TxHash(), Index: uint32(shape & 1)}, pushOnly(r.Bytes(71))))
+				child.AddTxIn(wire.NewTxIn(&wire.OutPoint{Hash: p2.TxHash(), Index: uint32((shape >> 1) & 1)}, pushOnly(r.Bytes(71))))
+				child.AddTxOut(wire.NewTxOut(0, p2sh(r.Bytes(20)), wire.TokenData{}))
+				grand := wire.NewMsgTx(1)
+				grand.AddTxIn(wire.NewTxIn(&wire.OutPoint{Hash: child.TxHash(), Index: 0}, pushOnly(r.Bytes(71))))
+				grand.AddTxOut(wire.NewTxOut(0, p2sh(r.Bytes(20)), wire.TokenData{}))
+				three := []*wire.MsgTx{child, p1, p2}
+				txs := []*wire.MsgTx{three[perm[0]], three[perm[1]], three[perm[2]], grand}
+				f := bloom.LoadFilter(wire.NewMsgFilterLoad(make([]byte, 256), 5, uint32(r.U64()), wire.BloomUpdateType(flags)))
+				f.Add(key)
+				fa := []string{hx(f.MsgFilterLoad().Filter), "5", u64s(uint64(f.MsgFilterLoad().Tweak)), itoa(flags)}
+				e("blk", "twoparents:"+itoa(shape)+":f"+itoa(flags), fa[0], fa[1], fa[2], fa[3], fmtTxs(txs))
+			}
+		}
+	}
 	// directed: a child listed BEFORE its parent with many filter updates in between (N watched transactions whose
 	// matched output adds an outpoint each); N around the wrap-around points of small counters
 	ns := []int{254, 255, 256}
@@ -958,6 +1127,26 @@ func genC12(r *Rng, tier string, emit func(Case)) {
 		}
 	}
 	e("ex", "noflags", "1", "aa", "-")
+	// the same small scope over the two *special* hash values (all-zero: the zero value of chainhash.Hash, what an
+	// unset or exhausted branch would hold; all-ones), so that the equal-children guard is exercised with them
+	cnt = 0
+	for n := 0; n <= 4; n++ {
+		for hl := 0; hl <= 3 && hl <= n+1; hl++ {
+			for hv := 0; hv < 1<<uint(hl); hv++ {
+				hs := []string{}
+				for i := 0; i < hl; i++ {
+					hs = append(hs, []string{"00", "ff"}[(hv>>uint(i))&1])
+				}
+				for fl := 0; fl < 256; fl++ {
+					cnt++
+					if tier != "thorough" && cnt%3 != 0 {
+						continue
+					}
+					e("ex", "exhspecial", itoa(n), joinOr(hs, ","), hx([]byte{byte(fl)}))
+				}
+			}
+		}
+	}
 	// mutations of honest proofs
 	nm := 300
 	if tier == "thorough" {
